@@ -111,6 +111,8 @@ macro_rules! set_impl {
                 memo: Box<dyn Fn(&str) -> Box<dyn Fn() -> String>>,
                 owner: Owner,
                 base: Option<leptos_i18n::I18nContext<L>>,
+                // how many times the reactive block that created this context has run (sub-contexts created inside a block)
+                runs: Option<Arc<std::sync::atomic::AtomicUsize>>,
             }
             let loc = |v: &Value| -> Option<L> { v.as_str().and_then(|s| s.parse::<L>().ok()) };
             let set_cookies: Arc<Mutex<Vec<String>>> = Arc::new(Mutex::new(vec![]));
@@ -145,6 +147,7 @@ macro_rules! set_impl {
                 }),
                 owner,
                 base: Some(ctx),
+                runs: None,
             };
             for op in req["ops"].as_array().unwrap() {
                 let kind = op["op"].as_str().unwrap_or("");
@@ -223,6 +226,51 @@ macro_rules! set_impl {
                         };
                         handles.borrow_mut().push(ctx_handle(ctx, owner));
                     }
+                    "sub_block" => {
+                        // the documented manual way inside a reactive block: the block must not become a subscriber of the parent's locale
+                        let p = op["parent"].as_u64().unwrap() as usize;
+                        let owner = handles.borrow()[p].owner.child();
+                        let initial = loc(&op["initial"]);
+                        let slot: Arc<Mutex<Option<leptos_i18n::I18nContext<L>>>> = Arc::new(Mutex::new(None));
+                        let runs = Arc::new(std::sync::atomic::AtomicUsize::new(0));
+                        let (slot2, runs2, opv, sc) = (slot.clone(), runs.clone(), op.clone(), set_cookies.clone());
+                        let memo = owner.with(|| {
+                            Memo::new(move |_| {
+                                let n = runs2.fetch_add(1, std::sync::atomic::Ordering::SeqCst) + 1;
+                                let (co, lo) = make_options(&opv, sc.clone());
+                                let sig = initial.map(|l| Signal::stored(l));
+                                let ctx = init_i18n_subcontext_with_options::<L>(sig, None, Some(co), Some(lo));
+                                *slot2.lock().unwrap() = Some(ctx);
+                                n
+                            })
+                        });
+                        memo.get_untracked();
+                        let cur = move || {
+                            memo.get_untracked();
+                            slot.lock().unwrap().expect("block did not run")
+                        };
+                        let (c1, c2, c3, c4, c5, c6) = (cur.clone(), cur.clone(), cur.clone(), cur.clone(), cur.clone(), cur.clone());
+                        handles.borrow_mut().push(Handle {
+                            get: Box::new(move || c1().get_locale_untracked()),
+                            get_tracked: Box::new(move || c2().get_locale()),
+                            set: Box::new(move |l| c3().set_locale(l)),
+                            set_untracked: Box::new(move |l| c4().set_locale_untracked(l)),
+                            string: Box::new(move || { let ctx = c5(); t_string!(ctx, hello).to_string() }),
+                            memo: Box::new(move |kind: &str| -> Box<dyn Fn() -> String> {
+                                let ctx = c6();
+                                if kind == "memo_locale" {
+                                    let m = Memo::new(move |_| ctx.get_locale());
+                                    Box::new(move || format!("hello@{}", m.get_untracked().as_str()))
+                                } else {
+                                    let m = Memo::new(move |_| t_string!(ctx, hello).to_string());
+                                    Box::new(move || m.get_untracked())
+                                }
+                            }),
+                            owner,
+                            base: None,
+                            runs: Some(runs),
+                        });
+                    }
                     "scope" => {
                         let i = op["ctx"].as_u64().unwrap() as usize;
                         let (base, owner) = {
@@ -247,6 +295,7 @@ macro_rules! set_impl {
                             }),
                             owner,
                             base: None,
+                            runs: None,
                         });
                     }
                     "set" | "set_untracked" => {
@@ -301,7 +350,8 @@ macro_rules! set_impl {
                 let reads: Vec<Value> = handles
                     .borrow()
                     .iter()
-                    .map(|h| json!({"untracked": (h.get)().as_str(), "tracked": (h.get_tracked)().as_str(), "string": (h.string)()}))
+                    .map(|h| json!({"untracked": (h.get)().as_str(), "tracked": (h.get_tracked)().as_str(), "string": (h.string)(),
+                                     "runs": h.runs.as_ref().map(|r| r.load(std::sync::atomic::Ordering::SeqCst))}))
                     .collect();
                 let accs: Vec<Value> = accessors.borrow().iter().map(|(i, fl, f)| json!({"ctx": i, "flavour": fl, "text": f()})).collect();
                 let cookies: Vec<String> = std::mem::take(&mut *set_cookies.lock().unwrap());
